@@ -231,8 +231,27 @@ func ReadBytes(typ, path string, data []byte, py *Py) (*Payload, error) {
 	case "pgp-inline":
 		return readInlinePath(path, data)
 	case "pgp-detached":
+		// a detached signature carries no payload (the content file is checked by
+		// the caller); it must be a well-formed sequence of signature packets
+		raw, err := dearmor(data)
+		if err != nil {
+			return nil, err
+		}
+		pkts, err := parsePackets(raw)
+		if err != nil {
+			return nil, err
+		}
 		p := &Payload{Type: typ}
-		p.add("signature-blob", "", nil) // a detached signature carries no payload; the content file is checked by the caller
+		for _, k := range pkts {
+			if k.Tag != 2 {
+				return nil, fmt.Errorf("pgp: packet tag %d in a detached signature", k.Tag)
+			}
+			p.SigItems = append(p.SigItems, "signature-packet")
+		}
+		if len(pkts) == 0 {
+			return nil, fmt.Errorf("pgp: empty detached signature")
+		}
+		p.add("signature-blob", "", nil)
 		return p, nil
 	}
 	return nil, fmt.Errorf("payload: unknown type %q", typ)
